@@ -366,6 +366,8 @@ fn benign_plan(chunk: usize, eintr: usize, lat: u64) -> FaultPlan {
     p.default_chunk = chunk;
     p.open_latency_ms = lat;
     p.read_latency_ms = lat;
+    // a slow reader is also one during which the host gets to run other things: it re-enters
+    p.reenter = lat == 900;
     if eintr > 0 {
         // an EINTR before every `eintr`-th delivery, for the first 4096 read calls
         let mut reads = Vec::new();
